@@ -29,6 +29,7 @@ func init() {
 }
 
 func runC02(w *World, r *Report) {
+	rulePassOrder(w, r)
 	ruleFlatten(w, r)
 	ruleOptGate(w, r)
 	ruleDirEq(w, r)
